@@ -35,6 +35,9 @@ type typeDictionary struct {
 	// resolved again, since the modules loaded in between (a module that
 	// was missing, a newer revision) may change what its name denotes.
 	run int
+	// depth is the number of typedefs being resolved at the moment, one
+	// inside the other.
+	depth int
 }
 
 func newTypeDictionary() *typeDictionary {
@@ -155,11 +158,23 @@ func (t *Typedef) resolve(d *typeDictionary) []error {
 	if t.resolving {
 		return []error{fmt.Errorf("%s: typedef %s is defined in terms of itself", Source(t.Type), t.Name)}
 	}
+	if t.failed != nil && t.run == d.run {
+		return t.failed
+	}
 	t.resolving = true
 	defer func() { t.resolving = false }()
-	t.YangType, t.run = nil, d.run
+	t.YangType, t.run, t.failed = nil, d.run, nil
+	// Resolution recurses once per link of a derivation chain; like the
+	// nesting of statements, the length of a chain is limited.
+	d.depth++
+	defer func() { d.depth-- }()
+	if d.depth > maxStatementDepth {
+		t.failed = []error{fmt.Errorf("%s: typedef %s: derivation chain longer than %d", Source(t.Type), t.Name, maxStatementDepth)}
+		return t.failed
+	}
 
 	if errs := t.Type.resolve(d); len(errs) != 0 {
+		t.failed = errs
 		return errs
 	}
 
